@@ -3,7 +3,7 @@
 use serde_json::Value;
 
 use crate::fw::{Batch, CheckSpec, Tier, drive};
-use crate::{Args, eng_codec, eng_disk, eng_hist, eng_rdf, eng_sched, eng_snap, eng_store, eng_txm, eng_vec};
+use crate::{Args, eng_codec, eng_disk, eng_hist, eng_rdf, eng_sched, eng_snap, eng_store, eng_twin, eng_txm, eng_vec};
 
 const REAL_TXM: &[&str] = &["grafeo_engine::transaction::TransactionManager (all of manager.rs)"];
 
@@ -14,6 +14,7 @@ pub fn run_check(id: &str, args: &Args) -> i32 {
         "C14" => c14(args),
         "C20" => c20(args),
         "C13" => c13(args),
+        "C10" => c10(args),
         "C18" => c18(args),
         "C07" => c07(args),
         "C15" => c15(args),
@@ -335,6 +336,26 @@ fn c18(args: &Args) -> i32 {
     drive(batch, &|seed, _i| eng_vec::run_one(seed, thorough), Some(&eng_vec::minimise), &mut |_| {})
 }
 
+fn c10(args: &Args) -> i32 {
+    let thorough = args.tier == Tier::Thorough;
+    let spec = CheckSpec {
+        property: "C10",
+        check_name: "C10",
+        level: "exploration",
+        engine: "TWIN",
+        rule: "one history of data changes (create/delete node and edge, set/remove property incl. strings that differ only in inner whitespace), create/drop property index and queries from a fixed template family (equality, comparison, range, conjunction, disjunction, int-vs-float constant, string literal with whitespace, edge-property predicate, 2- and 3-hop chains, count; a per-run pool of query texts is re-executed between changes, also with different spacing between tokens, from two sessions that share the plan cache) is applied in lock-step to database A (indexes as generated, plan cache on, factorized execution on) and twin B (no index ever, cache bypassed via execute_with_params, factorized execution off); after every query row multisets must be equal and equal to brute force over the model for the unambiguous templates. Non-trivial = >=2 queries over a non-empty graph; distinct = distinct operation lists".into(),
+        real: vec!["GrafeoDB/Session query path: QueryCache, gql translator, binder, optimizer, planner (index / range / zone-map / scan paths, factorized expand), executor", "LpgStore property indexes and zone maps"],
+        stub: vec![],
+        assumptions: vec!["data changes go through the GrafeoDB direct API (store epoch), so that visibility questions (C01) do not enter".into()],
+        unchecked: vec![
+            "'for all queries and graphs' as a universal statement about the planner: a pure function of (graph, query, configuration); only the history-dependent half (cache warm after changes, index created/dropped between executions, shared cache across sessions) is decided here, through the fixed template family".into(),
+            "plan-cache eviction (capacity 1000 is never reached by these histories)".into(),
+        ],
+    };
+    let batch = Batch { spec, tier: args.tier, seed: args.seed, runs: runs(args, 8_000, 500_000), workers: args.workers };
+    drive(batch, &|seed, _i| eng_twin::run_one(seed, thorough), Some(&eng_twin::minimise), &mut |_| {})
+}
+
 pub fn replay_file(path: &str) -> i32 {
     let text = match std::fs::read_to_string(path) {
         Ok(t) => t,
@@ -360,6 +381,7 @@ pub fn replay_file(path: &str) -> i32 {
         Some("SCHED") => eng_sched::replay(rep, &prop),
         Some("HIST") => eng_hist::replay(rep),
         Some("RDF") => eng_rdf::replay(rep),
+        Some("TWIN") => eng_twin::replay(rep),
         Some("VEC") => eng_vec::replay(rep),
         Some("SNAP") => eng_snap::replay(rep),
         Some("CODEC") => eng_codec::replay(rep),
